@@ -142,4 +142,8 @@ def units(ctx):
     from vlib.pyvc.unit import contract_unit as _cu5
     us += [_cu5(c, world_setup=_r5.setup_call)
            for c in _r5.call_contracts()]
+    from contracts import collections as _cc7
+    from vlib.pyvc.unit import contract_unit as _cu7
+    us += [_cu7(c, world_setup=_cc7.setup_mem)
+           for c in _cc7.slice_contracts()]
     return us
